@@ -1973,7 +1973,7 @@ class Executor:
                     v = self.ev(a.value, st)
                     items = v.items if isinstance(v, (TupleV, Coll)) else None
                     if items is None:
-                        args.append(("*", v))
+                        args.append(self.as_coll(v, st))  # abstract *args: passed as the collection itself
                     else:
                         args += items
                 else:
